@@ -52,6 +52,33 @@ def const_prop_set(ix: Index, f: FuncInfo, e) -> typing.Optional[typing.Set[str]
 # READ-COVER
 # ---------------------------------------------------------------------------------------
 
+def _check_absent(ctx, f: FuncInfo, subject: str, rule):
+  """A `return False` ("never painted") must follow from a value that is specified: a style that is
+  not specified on the region may still be set by a document-level initial value or by inheritance,
+  so `get_style(...) is None` proves nothing."""
+  from . import match as _m
+  from ..core import parent as _p
+  locals_from_style = {}
+  for st in own_nodes(f.node):
+    if isinstance(st, (ast.Assign, ast.AnnAssign)) and isinstance(getattr(st, "value", None), ast.Call) and isinstance(st.value.func, ast.Attribute) and st.value.func.attr == "get_style" \
+        and unparse(st.value.func.value) == subject:
+      tgt = st.targets[0] if isinstance(st, ast.Assign) else st.target
+      if isinstance(tgt, ast.Name):
+        locals_from_style[tgt.id] = unparse(st.value.args[0]).split(".")[-1] if st.value.args else "?"
+  for r in own_nodes(f.node):
+    if isinstance(r, ast.Return) and isinstance(r.value, ast.Constant) and r.value.value is False:
+      child, par = r, _p(r)
+      while par is not None and par is not f.node:
+        if isinstance(par, ast.If):
+          isn = _m.is_none_test(par.test, lambda e: (isinstance(e, ast.Name) and e.id in locals_from_style) or (isinstance(e, ast.Call) and isinstance(e.func, ast.Attribute) and e.func.attr == "get_style"))
+          in_body = any(child is x for x in par.body)
+          if isn is not None and ((isn and in_body) or (not isn and not in_body)):
+            ctx.bad(rule, f"{f.qualname}|absent value taken as a verdict", ctx.where(f.module, r),
+                    f"`{short(par.test, 50)}`: the region is declared never painted because a style is not specified on it; a document-level initial value (or animation) can still make it visible, "
+                    "so the cached snapshots drop a region the uncached ones paint")
+        child, par = par, _p(par)
+
+
 def check_anim_cover(ctx, f: FuncInfo, subject: str, rule="READ-COVER"):
   """`f` decides something about `subject` from its specified styles; its loop over
   subject.iter_animation_steps() must treat a step on any of those properties as relevant."""
@@ -114,6 +141,7 @@ def check_anim_cover(ctx, f: FuncInfo, subject: str, rule="READ-COVER"):
       raise AnalysisError(f"{f.qualname}: the animation-step filter `{short(t, 80)}` is not a membership / identity test on {step}.style_property (idiom not recognised)")
   else:
     raise AnalysisError(f"{f.qualname}: the body of the animation-step loop is neither `return ...` nor `if <filter>: return ...` (idiom not recognised)")
+  _check_absent(ctx, f, subject, rule)
   if everything:
     ctx.ok(rule, key, ctx.where(f.module, lp), f"every animation step counts; specified reads: {sorted(reads)}")
   else:
